@@ -308,6 +308,21 @@ def run(ctx) -> None:
             rep.check("C02.R5", bool(re_), init, skip.ast, "component contexts are replaced by the real context they wrap", "the component-context skip does not move to the wrapped context")
             copies = [n for n in icfg.live_nodes() if n.kind in ("stmt", "for_iter") and icfg.own_ast(n) is not None and any(isinstance(x, ast.Attribute) and x.attr in tables and dotted(x.value) != "self" for x in iter_own(icfg.own_ast(n)))]
             rep.check("C02.R5", bool(copies) and all(icfg.dominates(skip.id, c.id) for c in copies), init, skip.ast, "the skip happens before the parent's tables are read", "the tables are copied from the component context before it is skipped")
+        # nothing else moves the parent link: every other (re)definition of the chosen value
+        # must be a plain copy of it or the component-context skip
+        sel_nodes = {x[0].id for x in sel}
+        for n in icfg.live_nodes():
+            if n.kind != "stmt" or not isinstance(n.ast, (ast.Assign, ast.AnnAssign)) or getattr(n.ast, "value", None) is None or n.id in sel_nodes:
+                continue
+            tg = (n.ast.targets if isinstance(n.ast, ast.Assign) else [n.ast.target])[0]
+            tname = dotted(tg) or ""
+            if tname not in pvars | {f"self.{pattr}"}:
+                continue
+            v = n.ast.value
+            plain_copy = (isinstance(v, ast.Name) and (v.id in pvars or v.id == pparam)) or (dotted(v) or "") in pvars | {f"self.{pattr}"}
+            is_skip = isinstance(v, ast.Attribute) and v.attr == an.wrapped_attr and (dotted(v.value) or "") in pvars | {f"self.{pattr}"}
+            none_when_none = isinstance(v, ast.Constant) and v.value is None and any(ifacts.implied(n.id, ast.parse(f"{pv} is None", mode="eval").body, True) for pv in pvars | {f"self.{pattr}"} if pv != tname)
+            rep.check("C02.R5", plain_copy or is_skip or none_when_none, init, n.ast, "the chosen parent is only copied or unwrapped from a component context", f"`{ast.unparse(n.ast)}` moves the parent link away from the chosen context (explicit argument / context current at creation): the new context inherits from, and is attached to, a different context")
         stores = [n for n in icfg.live_nodes() if n.kind == "stmt" and isinstance(n.ast, (ast.Assign, ast.AnnAssign)) and any(self_attr(t) == pattr for t in (n.ast.targets if isinstance(n.ast, ast.Assign) else [n.ast.target]))]
         rep.check("C02.R5", bool(stores) and icfg.all_paths_pass(icfg.entry, [icfg.exit], [x.id for x in stores], edge_ok=lambda s_, d_, lab: lab not in ("e", "h")), init, stores[0].ast if stores else init.node, f"self.{pattr} is set on every path through the constructor", "some path leaves the parent link unset")
 
